@@ -135,6 +135,7 @@ CHECKS["C11"] = dict(
     thorough=dict(shards=16, checks=4000, timeout=3000),
     assumptions=[
         "a peer that sends an incomplete line or frame and then stays silent is only required to get no handler (the server legitimately keeps waiting)",
+        "a stall of the well-behaved client counts against the hostile script only if a control client on a second, untouched server in the same process kept completing round trips meanwhile; if both stall the case is abandoned as machine overload",
         "a recovered panic that only closes the hostile peer's connection is recorded as a label (it is a C02 matter)",
         "declared frame sizes above 2^26 are exercised in the thorough tier only",
     ],
